@@ -97,6 +97,12 @@ JudgeC16(rec) ==
                             \E s \in sigs : s \notin tam /\ Verifies(ms[s], <<TheOne(b), TheOne(c), TheOne(d)>>, r2, tam))
                 /\ a.ok => a.signer \in {Packets(ms[CHOOSE s \in sigs : TRUE])[q].key : q \in 1..Len(Packets(ms[CHOOSE s \in sigs : TRUE]))},
             "a later CheckDebsig call on the same loaded package succeeded for a keyring that does not hold the signing key">>,
+          \* ... and the positive side of the same: what the package's signature is worth does not wear off with use
+          <<(rec.first.ok /\ ShapeClass(ms) = "wellformed" /\ flipped = {} /\ Cardinality(sigs) = 1 /\ unique /\ MorePackets(ms[TheOne(sigs)]) = <<>>) =>
+                \A k \in 1..Len(rec.first.sig_again) :
+                    LET a == rec.first.sig_again[k]  r2 == {a.ring[i] : i \in 1..Len(a.ring)} IN
+                    Verifies(ms[TheOne(sigs)], <<TheOne(b), TheOne(c), TheOne(d)>>, r2, tam) => (a.ok /\ a.signer = ms[TheOne(sigs)].key),
+            "a later CheckDebsig call on the same loaded package refused a valid signature by a key of the keyring it was given">>,
           <<mustVerify => \A k \in 1..Len(rec.reps) : rec.reps[k].ok /\ rec.reps[k].sig_ok /\ rec.reps[k].signer = theSig.key,
             "valid signature by a keyring key over the loaded members was not accepted">>,
           <<(unique /\ ShapeClass(ms) = "wellformed" /\ rec.first.ok /\ rec.first.sig.ok) => ControlAgrees(rec.first, ms[TheOne(c)].fields),
